@@ -42,3 +42,16 @@ claim("C04", "must-call/never-prune checks of the instance collector, key-comple
 claim("C05", "root/must-call table, effect-kind exhaustiveness of the initialiser side-effect test, lexical scoping of Decl code-field assignments in CollectDCEDeps, sibling agreement of filter names",
       "Decides that entry points, effectful or possibly-panicking initialisers and linkname implementations are roots, that every reference-producing helper records its dependency first, that translated code fields are filled inside the dependency collector, that names and dependencies share getFilters and the selector's bookkeeping is symmetric, that only alive decls are emitted with all fields, and that prelude references into packages are rooted or guarded. Does not decide completeness of dependencies for every program.",
       TB, "DESIGN.md §3 C05")
+
+claim("C10", "order obligations over statement sequences of the assembly functions, rejection-path analysis of the linkname parser, template order in WritePkgCode",
+      "Decides the declaration/initialiser/link order obligations (imports-types-vars-funcs, zero values then InitOrder, main call last, self-replacing $init, post-order linking with runtime first, program-level chain), file ordering by name, the three linkname rejections on error paths that reach the caller, and registration-before-binding of linkname implementations with the receiver-kind flag. Does not decide the run-time order for every import DAG.",
+      TB, "DESIGN.md §3 C10")
+claim("C18", "configuration-table check with constants folded by go/types against the repository's documentation and version sources",
+      "Decides that the build context uses gc, no cgo, user tags plus exactly the four always-on tags, release tags truncated at the supported version (agreeing across GoVersion, Version, version_check.go, go.mod, versionhack), js/ecmascript defaults, js/wasm exactly for standard-library packages, and suffix-only .inc.js discovery. go/build's own constraint evaluation is trusted.",
+      TB, "DESIGN.md §3 C18")
+claim("C19", "who-may-write rule for the hint byte, encoder/decoder sibling agreement, must-precede checks on position flushing, def-use of the filtered slice",
+      "Decides that 0x08 can only enter the stream through Hint.WriteTo, that WriteTo/ReadHint and Pack/Unpack agree and the filter and the minifier skip exactly the encoded length, that positions are set and flushed before code, and that line/column accounting runs over the forwarded bytes with foreign mappings offset. Does not decide column arithmetic of esbuild maps.",
+      TB, "DESIGN.md §3 C19")
+claim("C20", "key-completeness against the struct type, statement-order (must-precede) rules on Store/Load/deserialize, who-may-write rule for package cache, gob registration exhaustiveness computed from go/ast, encode/decode sequence agreement",
+      "Decides that every configuration field and the import path reach the key, that entries appear only by rename of a closed temporary and failures clean up, that staleness is checked before decoding and Load hits only on the clean path with gzip close errors propagated, that the test package bypasses the cache before any file operation, that every AST node type is gob-registered and Write/Read agree, and that callers discard failed loads. gzip/gob/rename are trusted.",
+      TB, "DESIGN.md §3 C20")
